@@ -8,7 +8,10 @@
    eq <cls> <be1> <hex1> <be2> <hex2>           -> ok 0/1
    check <cls> <fix> <be> <hex>                 -> ok <hex> <lvl>:<msg>:<fixflag>,... | err raise
    default <cls> <be>                           -> ok <be> <hex>
-   conv <src> <dst> <check> <be> <hex>          -> ok <hex> (native byte order) | err <enum> *)
+   conv <src> <dst> <check> <be> <hex>          -> ok <hex> (native byte order) | err <enum>
+   copymut <be> <hex> <who o|c> <mut> <n> (<code> <hex>)*   header with n extensions, copy_ref, one mutation through the
+        original (o) or the copy (c); mut = bytes:<hex> | append:<code>:<hex> | clear | set   (set: to [(7, xff)])
+        -> ok shared=<0/1> orig=<be> <hex> <n> (<code> <hex>)* copy=<be> <hex> <n> ... *)
 let cls_of_string = function
   | "analyze" -> Analyze | "spm99" -> Spm99 | "spm2" -> Spm2 | "nifti1" -> Nifti1
   | "nifti1pair" -> Nifti1Pair | "nifti2" -> Nifti2 | "nifti2pair" -> Nifti2Pair
@@ -59,5 +62,22 @@ let handle op args = match op, args with
     (match from_header s d (bool_of_string ck) (decode_struct (layout_of s) (bool_of_string be) (bytes_of_hex h)) with
      | COk o -> "ok " ^ hex_of_bytes (encode_struct (layout_of d) native_be o)
      | CErr e -> "err " ^ string_of_cerr e)
+  | "copymut", be :: h :: who :: mut :: n :: rest ->
+    let rec exts k args = if k = 0 then [] else (match args with
+      | c :: x :: r -> (z_of_string c, bytes_of_hex x) :: exts (k - 1) r | _ -> failwith "bad exts") in
+    let l = exts (int_of_string n) rest in
+    let (s0, r) = new_header { s_bufs = []; s_lists = [] } (bool_of_string be) (bytes_of_hex h) l in
+    let (s1, r') = copy_ref s0 r in
+    let m = (match String.split_on_char ':' mut with
+      | ["bytes"; x] -> MSetBytes (bytes_of_hex x)
+      | ["append"; c; x] -> MExtAppend (z_of_string c, bytes_of_hex x)
+      | ["clear"] -> MExtClear
+      | ["set"] -> MExtSet [(z_of_int 7, bytes_of_hex "xff")]
+      | _ -> failwith "bad mutation") in
+    let s2 = mutate s1 (if who = "o" then r else r') m in
+    let show rf = let ((e, b), l) = view s2 rf in
+      string_of_bool e ^ " " ^ hex_of_bytes b ^ " " ^ string_of_int (List.length l) ^
+      String.concat "" (List.map (fun (c, x) -> " " ^ string_of_z c ^ " " ^ hex_of_bytes x) l) in
+    "ok shared=" ^ string_of_bool (r.r_buf = r'.r_buf || r.r_exts = r'.r_exts) ^ " orig=" ^ show r ^ " copy=" ^ show r'
   | _ -> "err driver:badop"
 let () = run_lines handle
